@@ -16,14 +16,15 @@ let eval case impl =
   match split_on ' ' case with
   | [kind; lo; segs; ms] ->
     let leftover = bytes_of_hex lo in
-    let unbang t = if String.length t > 0 && t.[0] = '!' then String.sub t 1 (String.length t - 1) else t in
+    let unbang t = if String.length t > 0 && (t.[0] = '!' || t.[0] = '^') then String.sub t 1 (String.length t - 1) else t in
     let segl = if segs = "-" then [] else List.map (fun t -> bytes_of_hex (unbang t)) (split_on ',' segs) in
     let mode = ms.[0] in
     let sizes = List.map n_of_int (parse_sizes (String.sub ms 1 (String.length ms - 1))) in
     (* segments written `!<hex>`: the stream fails once with Interrupted before delivering them (Model/BodyIntr.v) *)
+    let has_fail = segs <> "-" && List.exists (fun t -> String.length t > 0 && t.[0] = '^') (split_on ',' segs) in
     let has_intr = segs <> "-" && List.exists (fun t -> String.length t > 0 && t.[0] = '!') (split_on ',' segs) in
     let evs = if segs = "-" then [] else List.concat_map (fun t ->
-        if String.length t > 0 && t.[0] = '!' then [M.SIntr; M.SData (bytes_of_hex (unbang t))] else [M.SData (bytes_of_hex t)]) (split_on ',' segs) in
+        if String.length t > 0 && t.[0] = '!' then [M.SIntr; M.SData (bytes_of_hex (unbang t))] else [M.SData (bytes_of_hex (unbang t))]) (split_on ',' segs) in
     let b0 =
       if kind.[0] = 'F' then M.new_fixed leftover segl (n_of_string (String.sub kind 1 (String.length kind - 1)))
       else if kind = "C" then M.new_chunked leftover segl
@@ -33,6 +34,32 @@ let eval case impl =
     let model =
       (* modes V / L (interrupted reads under callers that retry): judged by the spec alone as well - the model's stream never fails *)
       if mode = 'M' || mode = 'V' || mode = 'L' then impl
+      else if has_fail && (kind.[0] = 'F' || kind = "C") then begin
+        (* failures that std does not retry (Model/BodyFail.v), under a caller that swallows them and goes on calling *)
+        let evs2 = List.concat_map (fun t ->
+            if String.length t > 0 && t.[0] = '!' then [M.S2Intr; M.S2Data (bytes_of_hex (unbang t))]
+            else if String.length t > 0 && t.[0] = '^' then [M.S2Fail; M.S2Data (bytes_of_hex (unbang t))]
+            else [M.S2Data (bytes_of_hex t)]) (split_on ',' segs) in
+        let bf = if kind.[0] = 'F' then M.new_fixed_f leftover evs2 (n_of_string (String.sub kind 1 (String.length kind - 1))) else M.new_chunked_f leftover evs2 in
+        let rec rloop b szs acc = match szs with
+          | [] -> (acc, "MORE")
+          | k :: rest -> (match M.body_read_f k b with
+              | M.FErr (_, _) -> (acc, "ERR")
+              | M.FIntr b' | M.FFail b' -> rloop b' rest acc
+              | M.FOk ([], b') -> if k = M.N0 then rloop b' rest acc else (acc, "EOF")
+              | M.FOk (o, b') -> rloop b' rest (acc @ o)) in
+        let rec bloop b amts acc = match amts with
+          | [] -> (acc, "MORE")
+          | a :: rest -> (match M.body_fill_buf_f b with
+              | M.FErr (_, _) -> (acc, "ERR")
+              | M.FIntr b' | M.FFail b' -> bloop (M.body_consume_f M.N0 b') rest acc
+              | M.FOk ([], _) -> (acc, "EOF")
+              | M.FOk (avail, b') ->
+                let rec take n l = if n <= 0 then [] else match l with [] -> [] | x :: t -> x :: take (n - 1) t in
+                let got = take (int_of_n a) avail in
+                bloop (M.body_consume_f (n_of_int (List.length got)) b') rest (acc @ got)) in
+        let (out, st) = if mode = 'R' then rloop bf sizes [] else bloop bf sizes [] in
+        hex_of_bytes out ^ " " ^ st end
       else if has_intr && (kind.[0] = 'F' || kind = "C") then begin
         (* the model with events, call by call: an interrupted call delivers nothing and the loop goes on with the next entry *)
         let be = if kind.[0] = 'F' then M.new_fixed_e leftover evs (n_of_string (String.sub kind 1 (String.length kind - 1))) else M.new_chunked_e leftover evs in
@@ -75,6 +102,8 @@ let eval case impl =
       else if kind = "C" then Some (M.spec_decode total)
       else None in
     let ok =
+      (* a caller that swallowed a timed-out read has been told: what it is given afterwards is the model's business only (DIFF) *)
+      if has_fail then true else
       match expected, split_on ' ' impl with
       | None, _ -> true
       | Some e, [ihex; ist] ->
